@@ -335,11 +335,10 @@ SPEC("pane.classes", "PaneConverter.__init__",
           and slen(self.field_converters) == slen(self.fields), ["C15", "C17"], "wiring"),
          # a field's own converter wins outright; otherwise the field type is built with: call-level handlers kept,
          # this class's handlers BEFORE those of enclosing classes (C18)
-         (lambda self, cls, handlers: exists_val(lambda H: isinstance(H, ConverterHandlers) and H.globals is handlers.globals
-                                                 and class_local_is_own_then_outer(self, handlers, H)
-                                                 and forall(range(slen(self.fields)), lambda i: sat(self.field_converters, i) == ite(
-                                                     is_none(sat(self.fields, i).converter), mkconv(sat(self.fields, i).type, H),
-                                                     sat(self.fields, i).converter))), ["C18", "C15"], "handlers"),
+         (lambda self, cls, handlers: forall(range(slen(self.fields)), lambda i: sat(self.field_converters, i) == ite(
+             is_none(sat(self.fields, i).converter),
+             mkconv(sat(self.fields, i).type, ConverterHandlers(handlers.globals, (*self.opts.class_handlers, *handlers.class_local))),
+             sat(self.fields, i).converter)), ["C18", "C15"], "handlers"),
          # input-name map: a key is bound exactly when it is an input name of some constructor field
          (lambda self, cls, handlers: forall_val(lambda k: mhas(self.field_map, k) ==
                                                  exists(range(slen(self.fields)), lambda i: names_field(self, k, i))), ["C15"], "field-map-keys"),
